@@ -66,11 +66,13 @@ let () = run_table [
   (* fingerprint as the code computes it, RFC 12.2 value over the RFC 5.5.2 body written from the fields,
      publen, the emitted public body, the RFC body *)
   "fp", (fun args -> let k = key_only args in
-      (* the public body as exported: of the packet itself when it is public, of its pubkey() twin otherwise *)
-      let body = (match k.k_sec with None -> key_body k | Some _ -> pub_packet_body k) in
+      (* the public body as exported: of the packet itself when it is public, of its pubkey() twin otherwise
+         (REFUSED when pubkey() raises: private packet with opaque material) *)
+      let body = (match k.k_sec with None -> hex_of_bytes_strict (key_body k)
+                  | Some _ -> (match pub_packet_body k with Some b -> hex_of_bytes_strict b | None -> "REFUSED")) in
       let rfcb = rfc_pub_body k.k_created k.k_alg k.k_mat in
       String.concat " " [hex_of_bytes_strict (fingerprint sha1 k);
-        hex_of_bytes_strict (rfc_fingerprint sha1 rfcb); hexnum_of_z (publen k); hex_of_bytes_strict body; hex_of_bytes_strict rfcb]);
+        hex_of_bytes_strict (rfc_fingerprint sha1 rfcb); hexnum_of_z (publen k); body; hex_of_bytes_strict rfcb]);
   (* key id as the code takes it, and as the RFC number (low-order 64 bits of the RFC fingerprint) *)
   "kid", (fun args -> let k = key_only args in
       hex_of_bytes_strict (keyid sha1 k) ^ " " ^ hexnum_of_z (rfc_keyid_value sha1 (rfc_pub_body k.k_created k.k_alg k.k_mat)));
@@ -78,12 +80,17 @@ let () = run_table [
   "body", (fun args -> let k = key_only args in hexnum_of_z (key_tag k) ^ " " ^ hex_of_bytes_strict (key_body k));
   "parse", (function [h] -> pr_opt (fun (((c, a), m), rest) ->
       String.concat " " [hexnum_of_z c; hexnum_of_z a; show_mat m; "|"; hex_of_bytes rest]) (key_body_parse (bytes_of_hex h)) | _ -> failwith "args");
-  (* ops <op> ... -- <key> : body and fingerprint after the history *)
+  (* twin <key> : PrivKeyV4.pubkey() - REFUSED, or tag, body and fingerprint of the twin *)
+  "twin", (fun args -> match pubkey_pkt (key_only args) with
+      | None -> "REFUSED"
+      | Some p -> String.concat " " [hexnum_of_z (key_tag p); hex_of_bytes_strict (key_body p); hex_of_bytes_strict (fingerprint sha1 p)]);
+  (* ops <op> ... -- <key> : body and fingerprint after the history (REFUSED when a step raises) *)
   "ops", (fun args ->
       let rec split acc = function "--" :: r -> (List.rev acc, r) | x :: r -> split (x :: acc) r | [] -> failwith "no --" in
       let (ops, kt) = split [] args in
-      let k = List.fold_left (fun k o -> apply_op k (read_op o)) (key_only kt) ops in
-      String.concat " " [hexnum_of_z (key_tag k); hex_of_bytes_strict (key_body k); hex_of_bytes_strict (fingerprint sha1 k)]);
+      (match run_ops (List.map read_op ops) (key_only kt) with
+       | None -> "REFUSED"
+       | Some k -> String.concat " " [hexnum_of_z (key_tag k); hex_of_bytes_strict (key_body k); hex_of_bytes_strict (fingerprint sha1 k)]));
   "packets", (function [h] -> let b = bytes_of_hex h in
       pr_opt (fun l -> if l = [] then "-" else String.concat " " (List.map (fun (t, bd) -> hexnum_of_z t ^ ":" ^ hex_of_bytes bd) l))
         (parse_packets (nat_of_int (List.length b + 1)) b) | _ -> failwith "args");
